@@ -26,7 +26,9 @@ class C11(scen.WorldProp):
                 "Wheatley.C11.step_in_row",
                 "Wheatley.C11.step_to_next_row",
                 "Wheatley.C11.peal_exact",
-                "Wheatley.C11.handstroke_gap"]
+                "Wheatley.C11.handstroke_gap",
+                "Wheatley.C11.world_solo_turn",
+                "Wheatley.C11.world_solo_rows"]
     level_text = ("theorems (any ordered field): blow index = r*N + p + floor(r/2)*g; I = m*60/2520/(2N+1); a wait "
                   "that starts before the bell's time ends exactly on it; hence every strike of a solo touch is at "
                   "T+3+I*index for any number of rows provided the 10 ms tick sleep is shorter than I; 5040 rows at "
